@@ -67,6 +67,7 @@ func unionProgram() *idlgen.Program {
 			fld(1, idlgen.Optional, named("Alt"), "u"),
 			fld(2, idlgen.Default, ty(idlgen.I32), "n"),
 			fld(3, idlgen.Default, ty(idlgen.String), "s"),
+			fld(4, idlgen.Default, &idlgen.Type{Kind: idlgen.List, Elem: named("Alt")}, "lu"),
 		}},
 	}
 	return &idlgen.Program{Files: []*idlgen.File{f}}
@@ -123,12 +124,14 @@ func directedCases(s *idlgen.Schema, sidx int) []directedCase {
 	var out []directedCase
 	root := func(kids ...*mkid) *mnode { return &mnode{kids: kids} }
 	if s.Structs[sidx].Name == "Holder" {
-		v := values.Record(values.Record(values.Int(7), values.Nil()), values.Int(1), values.Str("s"))
+		v := values.Record(values.Record(values.Int(7), values.Nil()), values.Int(1), values.Str("s"), values.List(values.Record(values.Int(8), values.Nil())))
 		for _, black := range []bool{false, true} {
 			out = append(out,
 				directedCase{v, black, root(fieldKid(1, "u", true, leafNode()))},
 				directedCase{v, black, root(fieldKid(2, "n", true, leafNode()))},
 				directedCase{v, black, root(fieldKid(1, "u", false, leafNode()), fieldKid(3, "s", true, leafNode()))},
+				directedCase{v, black, root(fieldKid(4, "lu", true, idxNode(leafNode(), 0)))},
+				directedCase{v, black, root(fieldKid(4, "lu", true, leafNode()))},
 				directedCase{v, black, nil})
 		}
 		return out
